@@ -74,6 +74,34 @@ theorem job_context_no_override (kvs : List (String × Ctx)) (h : (Ctx.obj kvs).
   simp only [List.lookup, List.filter_nil, List.append_nil]
   simp
 
+/-! ### key order is irrelevant: contexts as finite maps from paths to values -/
+
+/-- The merged context, read as a function from dotted paths to values (`sem`: nothing / a mapping / the
+non-mapping value), is a function (`mergeSem`) of the two contexts read the same way.  No hypothesis. -/
+theorem merge_as_path_function (a b : Ctx) (ps : List String) :
+    sem (deepMerge a b) ps = mergeSem (sem a) (sem b) ps := sem_deepMerge ps a b
+
+/-- Hence contexts that agree on every path merge to contexts that agree on every path: the key order of
+either side, at any depth, is irrelevant. -/
+theorem key_order_irrelevant (a a' b b' : Ctx) (ha : ExtEq a a') (hb : ExtEq b b') :
+    ExtEq (deepMerge a b) (deepMerge a' b') := deepMerge_extEq a a' b b' ha hb
+
+/-- Reordering the keys of a mapping gives a context that agrees on every path … -/
+theorem reorder_extEq (kvs kvs' : List (String × Ctx)) (hn : (kvs.map (·.1)).Nodup) (hp : kvs.Perm kvs') :
+    ExtEq (.obj kvs) (.obj kvs') := extEq_of_perm kvs kvs' hn hp
+
+/-- … and `get_context_value` on agreeing contexts finds agreeing values / the default in the same cases. -/
+theorem lookup_respects_extEq (a b : Ctx) (h : ExtEq a b) (ps : List String) :
+    match getPath a ps, getPath b ps with
+    | some x, some y => ExtEq x y
+    | none, none => True
+    | _, _ => False := extEq_getPath a b h ps
+
+/-- non-vacuity: `{a:1, b:{x:2}}` and `{b:{x:2}, a:1}` agree on every path -/
+example : ExtEq (.obj [("a", .leaf "1"), ("b", .obj [("x", .leaf "2")])])
+    (.obj [("b", .obj [("x", .leaf "2")]), ("a", .leaf "1")]) :=
+  reorder_extEq _ _ (by simp) (List.Perm.swap _ _ _)
+
 /-! ### `Task.update_context(context, **kwargs)` -/
 
 theorem mergeDicts_three_left_empty (c k : List (String × Ctx)) :
